@@ -37,6 +37,10 @@ def read_struct(data, lazy):
             for ch in g.channels():
                 if ch.data_type is None:
                     vals = []
+                elif ch.data_type.enum_value == G.T_DAQMX:
+                    d = ch.read_data(scaled=False) if lazy else ch.raw_scaler_data
+                    vals = {int(k): G.canon_array_values(v) for k, v in d.items()} if isinstance(d, dict) else \
+                        {0: G.canon_array_values(d)}
                 else:
                     d = ch.read_data(scaled=False) if lazy else ch.raw_data
                     vals = G.canon_array_values(d)
@@ -146,6 +150,94 @@ def check_cuts(run, rng, segs, label, cases, meta, unknown):
     return nontrivial
 
 
+def is_prefix(vals, cv):
+    if isinstance(vals, dict):
+        return isinstance(cv, dict) and all(k in cv and v == cv[k][:len(v)] for k, v in vals.items())
+    return cv is not None and not isinstance(cv, dict) and vals == cv[:len(vals)]
+
+
+def nvals(vals):
+    return [len(v) for _, v in sorted(vals.items())] if isinstance(vals, dict) else [len(vals)]
+
+
+def check_cuts_daqmx(run, rng, cases, meta):
+    """DAQmx files (every scaler of an object in one raw buffer): every cut; the reference is the
+    implementation's own read of the complete file and of the whole-segment prefixes (the independent
+    direct-addressing oracle for DAQmx is C11's)."""
+    import daqmxgen as D
+    widths, rows, chans = D.gen_daqmx_layout(rng, one_buffer_per_channel=True)
+    e = rng.choice("<>")
+    segs = []
+    for si in range(rng.randint(1, 2)):
+        cs = D.chunk_size(widths, rows)
+        data = bytes(rng.randrange(256) for _ in range(cs * rng.randint(1, 3)))
+        if si == 0:
+            segs.append(G.Seg(e=e, toc=G.TOC_META | G.TOC_RAW | G.TOC_DAQMX | G.TOC_NEWLIST,
+                              entries=D.daqmx_entries(widths, chans), data=data))
+        else:
+            segs.append(G.Seg(e=e, toc=G.TOC_RAW | G.TOC_DAQMX, entries=None, data=data))
+    full = G.ser_file(segs)
+    bounds = seg_bounds(segs)
+    try:
+        complete, _, _ = read_struct(full, lazy=False)
+        prefixes = [read_struct(full[:end], lazy=False)[0] if end else {} for end in [0] + [b[2] for b in bounds]]
+    except Exception as ex:     # noqa: BLE001
+        run.violation("daqmx-complete-raises", "complete DAQmx file cannot be read: %r" % ex,
+                      {"op": "cut", "hex": full.hex(), "cut": len(full), "unknown": False,
+                       "desc": R.describe_segs(segs)}, actual=repr(ex))
+        return False
+    cuts = list(range(4, len(full) + 1))
+    coq_cuts = set(cuts if len(cuts) <= 100 else rng.sample(cuts, 100))
+    for k in cuts:
+        data = full[:k]
+        run.cov["evaluations"] += 1
+        run.count("daqmx")
+        whole = sum(1 for (_, _, en) in bounds if en <= k)
+        in_raw = any(dp <= k < en for (_, dp, en) in bounds)
+        where = "raw" if in_raw else "other"
+        run.count("daqmx_cut_in_" + where)
+        case = {"op": "cut", "hex": full.hex(), "cut": k, "unknown": False, "desc": R.describe_segs(segs)}
+        failed = False
+        try:
+            eager, inc, stat = read_struct(data, lazy=False)
+            for p, (ln, vals) in eager.items():
+                if not is_prefix(vals, complete.get(p, (0, None))[1]):
+                    failed = True
+                    run.violation("cut-not-prefix", "DAQmx file cut at %d: channel %r is not a prefix of the complete "
+                                  "file's values" % (k, p), case, expected="prefix", actual=nvals(vals))
+                    break
+                if any(n != ln for n in nvals(vals)):
+                    failed = True
+                    run.violation("cut-len", "DAQmx file cut at %d: len(channel)=%d but %r values returned for %r"
+                                  % (k, ln, nvals(vals), p), case, expected=nvals(vals), actual=ln)
+                    break
+            if not failed:
+                for p, (ln0, v0) in prefixes[whole].items():
+                    if p not in eager or any(a < b for a, b in zip(nvals(eager[p][1]), nvals(v0))):
+                        failed = True
+                        run.violation("cut-loses-data", "DAQmx file cut at %d: channel %r lost values of segments "
+                                      "wholly before the cut" % (k, p), case, expected=nvals(v0),
+                                      actual=nvals(eager.get(p, (0, []))[1]))
+                        break
+            if not failed and inc != in_raw:
+                failed = True
+                run.violation("cut-status", "DAQmx file cut at %d: incomplete_final_segment=%s, expected %s"
+                              % (k, inc, in_raw), case, expected=in_raw, actual=inc)
+            if not failed:
+                lz, inc2, _ = read_struct(data, lazy=True)
+                if lz != eager or inc2 != inc:
+                    failed = True
+                    run.violation("cut-lazy", "DAQmx file cut at %d: lazy read differs from eager" % k, case)
+        except Exception as ex:     # noqa: BLE001
+            failed = True
+            run.violation("cut-raises", "DAQmx file cut at %d (%s): read raises %r" % (k, where, ex), case,
+                          expected="no exception", actual=repr(ex)[:300])
+        if k in coq_cuts or failed:
+            toks, ex = G.read_eager(data)
+            cases_append(cases, meta, data, toks, R.exc_kind(ex) or "tokens", case, failed, True)
+    return True
+
+
 def cases_append(cases, meta, data, toks, impl, case, failed, want):
     if want:
         cases.append(R.case_all(data, toks))
@@ -203,6 +295,10 @@ def main():
             run.cov["distinct_nontrivial"] += 1
         if i < 2:
             run.sample({"segments": R.describe_segs(segs), "file_bytes": len(G.ser_file(segs)), "cuts": "4..len"})
+    for i in range(run.pick(6, 150)):
+        if check_cuts_daqmx(run, rng, cases, meta):
+            run.cov["distinct_nontrivial"] += 1
+            run.count("files")
     R.run_agree_all(run, cases, meta, "cuts", "truncated file")
     run.cov["exhaustive"] = True
     run.cov["rule"] = ("well-formed files of 60-700 bytes (1-3 segments, all layouts/types; every third with the "
